@@ -168,3 +168,22 @@ Definition boot (q : pquirks) (base : N) : pstate :=
    checkpoint newer than all of them.  Only modelled (the operator side is outside engine snapstore). *)
 Definition retain_only (ids l : list N) : list N :=
   filter (fun c => mem c ids || (negb (is_nil ids) && (list_max ids <? c))) l.
+
+(* the operator's database under a sequence of DKV checkpoints (ids 1, 2, ...) and retention notifications:
+   the list of checkpoints it still holds *)
+Inductive rstep := RCk | RRt (id : N).
+Fixpoint retain_run (l : list N) (next : N) (steps : list rstep) : list N :=
+  match steps with
+  | [] => l
+  | RCk :: r => retain_run (l ++ [next]) (next + 1) r
+  | RRt id :: r => retain_run (retain_only [id] l) next r
+  end.
+Fixpoint taken (next : N) (steps : list rstep) : N :=
+  match steps with [] => next - 1 | RCk :: r => taken (next + 1) r | RRt _ :: r => taken next r end.
+(* every notification names a checkpoint the database holds at that moment *)
+Fixpoint retain_valid (l : list N) (next : N) (steps : list rstep) : Prop :=
+  match steps with
+  | [] => True
+  | RCk :: r => retain_valid (l ++ [next]) (next + 1) r
+  | RRt id :: r => In id l /\ retain_valid (retain_only [id] l) next r
+  end.
